@@ -328,6 +328,7 @@ func runC10(c *Ctx) {
 	c.Clause("C10.5 per-index lists (InitialPackets, InitPacketNumberLengths) repeat their last entry beyond the list: index values are the raw index, 0 or len-1")
 	c.Clause("C10.6 appendInitialPacket captures the datagram index before the payload builder advances it")
 	c.Clause("C10.7 the spec packer reads the CRYPTO write offset of the Initial stream only")
+	c.Clause("C10.8 tokenLength = max(ClientTokenLength, len(prefix)); the minimum-UDP-size padding is applied only under PacketSize == 0")
 	c.NotCovered("actual sizes / frame counts on the wire; decryptability by a server")
 	c.NotCovered("that a re-framed Initial stays within the connection's current maximum packet size (no such comparison exists: see DESIGN H7)")
 
@@ -338,6 +339,7 @@ func runC10(c *Ctx) {
 	c.rule("C10.5", func() { c10LastEntryRepeats(c) })
 	c.rule("C10.6", func() { c10IndexBeforeMarshal(c) })
 	c.rule("C10.7", func() { c10InitialStreamOnly(c) })
+	c.rule("C10.8", func() { c10TokenAndPadding(c) })
 }
 
 func c10Live(c *Ctx) {
@@ -638,6 +640,7 @@ func runC11(c *Ctx) {
 	c.Clause("C11.5 the suppress set is not modified while the list is filtered (duplicates, idempotence)")
 	c.Clause("C11.6 ShuffleQUICTransportParameters uses math/rand.Shuffle over the whole list with an element swap, or a Fisher–Yates loop drawing j from [0,i]")
 	c.Clause("C11.7 no function of this module calls the caching Len/Read of the spec's transport-parameter extension")
+	c.Clause("C11.8 PopulateFromUQUIC stores into the spec's parameter list only past the successful InitialSourceConnectionID assertion and the empty-value test")
 	c.NotCovered("byte equality with uTLS output; the statistical quality of the permutation beyond the algorithm's shape; fingerprint identifier values")
 	c.NotCovered("effectiveness of per-dial randomisation for a reused spec value (see C02 known findings)")
 
@@ -648,6 +651,7 @@ func runC11(c *Ctx) {
 	c.rule("C11.5", func() { c11SetReadOnly(c) })
 	c.rule("C11.6", func() { c11Shuffle(c) })
 	c.rule("C11.7", func() { c11NoEarlyMarshal(c) })
+	c.rule("C11.8", func() { c11PlaceholderOnly(c) })
 }
 
 func c11Order(c *Ctx) {
